@@ -17,7 +17,7 @@ from cirkit.utils.scope import Scope
 
 RULE = ("random histories (quick 25, thorough 200 steps) over {build circuit, symbolic operator, new context, "
         "compile through a context object or through the active context, operator functions on compiled circuits "
-        "(integrate / multiply / conjugate, incl. circuits unknown to that context), enter / exit of distinct contexts "
+        "(integrate / multiply / conjugate, incl. circuits unknown to that context; plus argument forwarding: differentiate order 1-3, integrate over a sub-scope, concatenate order, each vs compile(symbolic operator with the same arguments) via method / module function with ctx= / module function inside the block), enter / exit of distinct contexts "
         "nested and sequentially reused (incl. exits with an exception), lookups in both directions} executed on the "
         "real PipelineContext / TorchCompiler / ContextVar and on the Lean state machine (Model/Registry.lean); after "
         "every step the output (object identity -> canonical id), the sequence of _compile_circuit calls (harness spy) "
@@ -350,6 +350,86 @@ def run_own_registry(run: Run, scen: dict, rng: random.Random):
         run.exact += 1
 
 
+def run_ccop_args(run: Run, scen: dict, srng: random.Random):
+    """The operator functions applied to compiled circuits return the compilation of the corresponding symbolic
+    operator result *with the arguments they were given*: differentiate(cc, order=k) is compile(SF.differentiate(sc,
+    order=k)), integrate(cc, scope=Z) is compile(SF.integrate(sc, scope=Z)), concatenate(cc1, cc2) keeps the order -
+    through the context method, the module-level function with ctx=..., and the module-level function inside the block.
+    The reference is compiled by the same context (derived circuits share the operand's parameters), so outputs are
+    compared exactly up to float rounding."""
+    import itertools
+    import torch
+    from cirkit.symbolic.layers import PolynomialLayer
+
+    torch.set_default_dtype(torch.float64)
+    op, nv, K = scen["op"], scen["nv"], scen["units"]
+    if op == "differentiate":
+        ins = [PolynomialLayer(Scope([v]), K, degree=scen["degree"]) for v in range(nv)]
+        X = torch.tensor([[srng.uniform(-1.2, 1.2) for _ in range(nv)] for _ in range(4)])
+    else:
+        ins = [EmbeddingLayer(Scope([v]), K, num_states=scen["states"]) for v in range(nv)]
+        X = torch.tensor(list(itertools.product(range(scen["states"]), repeat=nv)))
+    layers, inl = list(ins), {}
+    top = ins[0]
+    if nv > 1:
+        top = HadamardLayer(K, arity=nv); layers.append(top); inl[top] = ins
+    out = SumLayer(K, 1); layers.append(out); inl[out] = [top]
+    sc = Circuit(layers, inl, [out])
+    sc2 = None
+    ctx = PL.PipelineContext(backend="torch", semiring="sum-product", fold=scen["fold"], optimize=scen["optimize"])
+    try:
+        cc = ctx.compile(sc)
+        if op == "concatenate":
+            sc2 = SF.integrate(sc, scope=Scope([0])) if nv > 1 else SF.conjugate(sc)
+            cc2 = ctx.compile(sc2)
+    except Exception as e:  # noqa: BLE001
+        run.feature("unobservable", f"ccop-args scenario: {type(e).__name__}")
+        return
+    zs = Scope(scen.get("zscope", [0]))
+    for via in ("method", "module-ctx", "module-inside"):
+        try:
+            if op == "differentiate":
+                k = scen["order"]
+                sym = lambda: SF.differentiate(sc, order=k)  # noqa: E731
+                call = {"method": lambda: ctx.differentiate(cc, order=k), "module-ctx": lambda: PL.differentiate(cc, ctx=ctx, order=k),
+                        "module-inside": lambda: PL.differentiate(cc, order=k)}[via]
+            elif op == "integrate":
+                sym = lambda: SF.integrate(sc, scope=zs)  # noqa: E731
+                call = {"method": lambda: ctx.integrate(cc, scope=zs), "module-ctx": lambda: PL.integrate(cc, scope=zs, ctx=ctx),
+                        "module-inside": lambda: PL.integrate(cc, zs)}[via]
+            else:
+                sym = lambda: SF.concatenate([sc2, sc])  # noqa: E731
+                call = {"method": lambda: ctx.concatenate(cc2, cc), "module-ctx": lambda: PL.concatenate(cc2, cc, ctx=ctx),
+                        "module-inside": lambda: PL.concatenate(cc2, cc)}[via]
+            if via == "module-inside":
+                with ctx:
+                    res = call()
+            else:
+                res = call()
+            with ctx:
+                ref = ctx.compile(sym())
+            with torch.no_grad():
+                got, exp = res(X), ref(X)
+        except Exception as e:  # noqa: BLE001
+            run.violation("ccop-args-crash", dict(scen, via=via), f"{op} of a compiled circuit ({via}): {type(e).__name__}: {e}")
+            return
+        run.evaluations += 1
+        if got.shape != exp.shape or not torch.allclose(got, exp, rtol=1e-9, atol=1e-12):
+            run.violation("ccop-args", dict(scen, via=via),
+                          f"{op} applied to a compiled circuit ({via}, arguments {({'order': scen.get('order')} if op == 'differentiate' else {'scope': list(zs)} if op == 'integrate' else 'cc2, cc')}) "
+                          f"gives shape {tuple(got.shape)} values {got.flatten()[:3].tolist()}, but the compilation of the symbolic operator result with the same "
+                          f"arguments gives shape {tuple(exp.shape)} values {exp.flatten()[:3].tolist()}")
+            return
+        try:
+            ok = ctx.get_compiled_circuit(ctx.get_symbolic_circuit(res)) is res
+        except Exception:  # noqa: BLE001
+            ok = False
+        if not ok:
+            run.violation("ccop-args-registry", dict(scen, via=via), f"result of {op} ({via}) is not registered in the context both ways")
+            return
+        run.exact += 1
+
+
 def check(run: Run, tier: str, seed: int):
     for i in range(8 if tier == "quick" else 60):
         srng = random.Random(f"C18-reg-{seed}-{i}")
@@ -360,6 +440,17 @@ def check(run: Run, tier: str, seed: int):
         torch.manual_seed(scen["torch_seed"])
         run.case(scen, nontrivial=True, sample=scen if i < 1 else None, features={"kind": "own-registry", "op": scen["op"]})
         run_own_registry(run, scen, srng)
+    for i in range(18 if tier == "quick" else 120):
+        srng = random.Random(f"C18-args-{seed}-{i}")
+        nv = srng.choice([1, 2, 3])
+        scen = {"kind": "ccop-args", "op": ["differentiate", "integrate", "concatenate"][i % 3], "nv": nv,
+                "units": srng.choice([1, 2, 3]), "states": srng.choice([2, 3]), "degree": srng.choice([3, 4]),
+                "order": 1 + (i // 3) % 3, "zscope": sorted(srng.sample(range(nv), srng.randint(1, nv))),
+                "fold": srng.random() < 0.5, "optimize": srng.random() < 0.5, "torch_seed": srng.randrange(10 ** 6)}
+        import torch
+        torch.manual_seed(scen["torch_seed"])
+        run.case(scen, nontrivial=True, sample=scen if i < 1 else None, features={"kind": "ccop-args", "op": scen["op"]})
+        run_ccop_args(run, scen, srng)
     n = 60 if tier == "quick" else 300
     steps = 25 if tier == "quick" else 200
     for i in range(n):
@@ -372,6 +463,11 @@ def check(run: Run, tier: str, seed: int):
 
 def replay(run: Run, body: dict):
     s = body["scenario"]
+    if s.get("kind") == "ccop-args":
+        import torch
+        torch.manual_seed(s["torch_seed"])
+        run_ccop_args(run, {k: v for k, v in s.items() if k != "via"}, random.Random(f"C18-args-replay"))
+        return
     if s.get("kind") == "own-registry":
         import torch
         torch.manual_seed(s["torch_seed"])
